@@ -45,7 +45,11 @@ type ChildSpec struct {
 	DieOn         string `json:"die_on,omitempty"`
 	HangOn        string `json:"hang_on,omitempty"`
 	Linger        bool   `json:"linger,omitempty"`
-	TermExit      int    `json:"term_exit"` // -1: die by the signal
+	TermExit      int    `json:"term_exit"`               // -1: die by the signal
+	DieByKill     bool   `json:"die_by_kill,omitempty"`   // the death on DieOn/HangGetState is a SIGKILL to itself
+	DieDelayMs    int    `json:"die_delay_ms,omitempty"`  // delay between the fatal request and the death
+	HangGetState  bool   `json:"hang_getstate,omitempty"` // after the idle state was reported once GetState never answers, the first such call is fatal
+	Wrap          bool   `json:"wrap,omitempty"`          // the task leader is a wrapper; the device is its child and SURVIVES the wrapper's death, keeping the connection open
 	BadCommand    bool   `json:"bad_command,omitempty"`
 	Noise         bool   `json:"noise,omitempty"`
 }
@@ -436,6 +440,53 @@ func ctlTemplates(kind string) []template {
 	add("start-fails-then-kill", childVar{"bad-command", func(ch *ChildSpec) { ch.BadCommand = true }}, func(r *rand.Rand, c *Case) {
 		c.Steps = []Step{stLAUNCH, await("terminal", 1, 10000), sleepStep(u(r, 0, 200)), stKILL}
 		c.JudgeSurvivors = true
+	})
+	// The task's process ends DURING the kill request: while the device handles one of the
+	// walk-down steps of Kill (STOP from RUNNING, RESET from CONFIGURED, EXIT from STANDBY), or
+	// while Kill waits for a GetState that never answers. The child never ends on its own, so
+	// this is a task killed on request: KILLED or FINISHED, never FAILED.
+	type wd struct{ name, evt string }
+	wds := []wd{{"stop", "STOP"}, {"reset", "RESET"}, {"exit", "EXIT"}}
+	if kind == "fairmq" {
+		wds = []wd{{"stop", "STOP"}, {"reset", "RESET TASK"}, {"exit", "END"}}
+	}
+	walkdown := func(r *rand.Rand, c *Case, from string) {
+		c.Steps = ready(r, c)
+		switch from {
+		case "stop":
+			c.Steps = append(c.Steps, stCONFIGURE, stSTART)
+		case "reset":
+			c.Steps = append(c.Steps, stCONFIGURE)
+		}
+		c.Steps = append(c.Steps, sleepStep(u(r, 0, 200)), stKILL)
+		c.KilledOnRequest, c.JudgeSurvivors = true, true
+	}
+	for _, w := range wds {
+		w := w
+		add("device-dies-in-walkdown", childVar{w.name + "-exit-3", func(ch *ChildSpec) { ch.DieOn = w.evt; ch.ExitCode = 3 }}, func(r *rand.Rand, c *Case) {
+			c.Child.DieDelayMs = u(r, 0, 60)
+			walkdown(r, c, w.name)
+		})
+		add("device-dies-in-walkdown", childVar{w.name + "-sigkill", func(ch *ChildSpec) { ch.DieOn = w.evt; ch.DieByKill = true }}, func(r *rand.Rand, c *Case) {
+			c.Child.DieDelayMs = u(r, 0, 60)
+			walkdown(r, c, w.name)
+		})
+		// the process the executor waits for dies, the device behind it keeps the request pending
+		add("leader-dies-in-walkdown", childVar{w.name + "-exit-3", func(ch *ChildSpec) { ch.DieOn = w.evt; ch.ExitCode = 3; ch.Wrap = true }}, func(r *rand.Rand, c *Case) {
+			c.Child.DieDelayMs = u(r, 0, 300)
+			c.Child.DieByKill = r.Intn(2) == 0
+			walkdown(r, c, w.name)
+		})
+	}
+	add("getstate-hangs-device-dies", childVar{"exit-3", func(ch *ChildSpec) { ch.HangGetState = true; ch.ExitCode = 3 }}, func(r *rand.Rand, c *Case) {
+		c.Child.DieDelayMs = u(r, 300, 2500) // well inside Kill's 5 s wait for GetState
+		c.Child.DieByKill = r.Intn(2) == 0
+		walkdown(r, c, []string{"stop", "reset", "exit"}[r.Intn(3)])
+	})
+	add("getstate-hangs-leader-dies", childVar{"exit-3", func(ch *ChildSpec) { ch.HangGetState = true; ch.ExitCode = 3; ch.Wrap = true }}, func(r *rand.Rand, c *Case) {
+		c.Child.DieDelayMs = u(r, 300, 2500)
+		c.Child.DieByKill = r.Intn(2) == 0
+		walkdown(r, c, []string{"stop", "reset", "exit"}[r.Intn(3)])
 	})
 	add("kill-twice", cvPlain, func(r *rand.Rand, c *Case) {
 		c.Steps = append(ready(r, c), stKILL, sleepStep(u(r, 0, 200)), stKILL)
